@@ -34,7 +34,7 @@ ASSUMPTIONS = [
     'CLI differential: taurex.taurex.main() run in-process with -i -o -S on files the harness wrote (pickle cross-sections, pickle CIA); spectrum compared with the same components built through the library, rtol 1e-9',
 ]
 RULE = RULE + ' ' + 'Also: composite tempscalar+<base> selectors with drawn scale factor and zero-valued keys, mis-cased contribution sections, [Binning] sections for the program run, the file temperature (and pressure) profile with its documented keys, numbers written with a capital E or a leading plus; cases stratified by part and variant.'
-REQUIRED = {'cli-binning:manual': 0.04, 'negative:miscased-contribution': 0.012, 'mixin-zero-valued-key': 0.012, 'two-mixins': 0.006, 'zero-valued-key': 0.05, 'part:sections': 0.12, 'part:cli': 0.06, 'part:selectors': 0.002, 'part:retrieval': 0.06, 'part:cli-retrieval': 0.03, 'negative': 0.05}
+REQUIRED = {'cli-binning:native-with-observation': 0.015, 'cli-binning:manual': 0.04, 'negative:miscased-contribution': 0.012, 'mixin-zero-valued-key': 0.012, 'two-mixins': 0.006, 'zero-valued-key': 0.05, 'part:sections': 0.12, 'part:cli': 0.06, 'part:selectors': 0.002, 'part:retrieval': 0.06, 'part:cli-retrieval': 0.03, 'negative': 0.05}
 # coverage-guided extra (thorough tier): pure-Python taurex modules on this property's path, instrumented by atheris
 FUZZ = {'include': ['taurex.parameter', 'taurex.util.util'], 'runs': 6000, 'workers': 4}
 
@@ -77,7 +77,7 @@ def _opt(strategy):
 
 
 # 'part:variant' forces the composite-selector variant of that part (each variant gets its share of every run)
-STRATA = {'selectors': 1, 'cli-retrieval': 2, 'sections': 2, 'sections:mixin': 1, 'sections:mixin2': 0.5, 'sections:custom': 0.5, 'sections:negative': 1, 'sections:tfile': 0.7, 'cli': 2,
+STRATA = {'selectors': 1, 'cli-retrieval': 2, 'sections': 2, 'sections:mixin': 1, 'sections:mixin2': 0.5, 'sections:custom': 0.5, 'sections:negative': 1, 'sections:tfile': 0.7, 'cli': 2, 'cli:native-obs': 0.6,
           'retrieval': 2}
 
 
@@ -141,7 +141,7 @@ def _case(draw, part=None):
     elif forced == 'negative':
         c['negative'] = draw(S.pick(['miscased-contribution', 'unknown-key', 'unknown-selector', 'unknown-contribution', 'miscased-contribution']))
         c['composite'] = None
-    elif forced:
+    elif forced and forced != 'native-obs':
         c['composite'] = forced if forced != 'mixin2' else draw(st.sampled_from(['mixin2', 'mixin2r']))
         c['negative'] = None
         if forced == 'mixin2':
@@ -155,7 +155,10 @@ def _case(draw, part=None):
     c['dwn'] = draw(f(5.0, 300.0))
     if part == 'cli':
         # a [Binning] section for the program run: what is stored and saved is then the binned spectrum
-        c['cli_binning'] = draw(S.pick(['manual', 'native', None, 'manual']))
+        c['cli_binning'] = draw(S.pick(['manual', 'native', None, 'manual', 'native']))
+        c['cli_obs'] = draw(st.sampled_from([True, False, True]))
+        if forced == 'native-obs':
+            c['cli_binning'], c['cli_obs'] = 'native', True
         c['cli_bin'] = {'kind': draw(st.sampled_from(['wavenumber_grid', 'wavelength_grid', 'log_wavenumber_grid'])), 'n': draw(S.ints(2, 5)),
                         'span': [draw(f(0.05, 0.35)), draw(f(0.65, 0.95))], 'accurate': draw(st.sampled_from([None, True, False]))}
     if part == 'cli-retrieval':
@@ -752,6 +755,15 @@ def check_sections(out, c, tmp, run_cli):
         out.cls('mixin-selector')
     if run_cli and c.get('cli_binning'):
         out.cls('cli-binning:' + c['cli_binning'])
+        if c['cli_binning'] == 'native' and c.get('cli_obs'):
+            # native binning asked for while an observation is loaded too: the spectrum stays at native resolution
+            out.cls('cli-binning:native-with-observation')
+            cen_ = np.linspace(W.wn[0] + 0.2 * (W.wn[-1] - W.wn[0]), W.wn[-1] - 0.2 * (W.wn[-1] - W.wn[0]), 3)
+            wl_ = 10000.0 / cen_
+            rows_ = np.column_stack([wl_, [1e-3, 1.1e-3, 0.9e-3], [1e-5, 2e-5, 3e-5], 0.6 * (wl_[0] - wl_[1]) * np.ones(3)])
+            ofile_ = os.path.join(tmp, 'obs_cli.dat')
+            np.savetxt(ofile_, rows_, fmt='%.17e')
+            lines += ['', '[Observation]', 'observed_spectrum = %s' % ofile_]
         lines += ['', '[Binning]', 'bin_type = %s' % c['cli_binning']]
         if c['cli_binning'] == 'manual':
             cb = c['cli_bin']
